@@ -1179,6 +1179,8 @@ def e_deepcopy(it, args, kwargs, node):
     if isinstance(v, DictV):
         d = DictV(items=dict(v.items), default=v.default, open_=v.open, desc='deepcopy')
         return d
+    if isinstance(v, (ConstV, IntV)) or isinstance(v, SeqV):
+        return v          # immutable values: the copy is the value
     it.event('deepcopy', node, value=v)
     return SymV(it.fresh('copy'), 'any', origin=('deepcopy', v))
 
